@@ -194,10 +194,12 @@ def run_twice(ctx, st):
         ctx.check(L + '/second-text', _same_text(ctx, getattr(second[0], attr), tb), 'the later text is not reassembled from its own records')
         if what == 'lookup':
             ctx.check(L + '/second-vnode', second[0].vnode_id == kb)
-    if what == 'gstring':
+    if what == 'gstring' and st['lb'] > 0:
+        # (an empty later definition is not recorded by the tool - whether it should withdraw the earlier text is not
+        # something the property states; only non-empty later definitions are judged)
         got = p.global_strings.get(kb)
         ctx.check(L + '/table-holds-the-later-definition', got is not None and _same_text(ctx, got, tb))
-    if what == 'tname':
+    if what == 'tname' and st['lb'] > 0:
         got = p.tids_names.get(TID)
         ctx.check(L + '/table-holds-the-later-name', got is not None and _same_text(ctx, got, tb))
     ctx.reach()
